@@ -73,6 +73,22 @@ def gen_cases(chk):
             dims = ",".join("%x" % v for v in [0] * (5 - len(t)) + list(t))
             grp = ["rt %x %s %s 0 %s %s 0 %s %s" % (ty, dims, dims, dbits(absb), dbits(1e-3), cfg, data) for cfg in configs]
             groups.append(grp)
+    # short two-plateau arrays of every type: their wrapped streams are a few dozen bytes long, among them lengths equal to a constant
+    # stream's (where every decoder entry has to sniff before it believes the length)
+    ES_ = [4, 8, 1, 1, 2, 2, 4, 4, 8, 8]
+    for ty in range(10):
+        for n in range(21, 49 if not thorough else 120):
+            vals = [0] * (n // 2) + [100] * (n - n // 2)
+            if ty == 0:
+                bits = [struct.unpack("<I", struct.pack("<f", float(v)))[0] for v in vals]
+            elif ty == 1:
+                bits = [struct.unpack("<Q", struct.pack("<d", float(v)))[0] for v in vals]
+            else:
+                bits = vals
+            dims = "0,0,0,0,%x" % n
+            data = "x:" + ",".join("%x" % b for b in bits)
+            groups.append(["rt %x %s %s 0 %s %s 0 %s %s" % (ty, dims, dims, dbits(1.0), dbits(1e-3), cfg, data)
+                           for cfg in ("szMode=SZ_BEST_SPEED", "losslessCompressor=GZIP_COMPRESSOR;gzipMode=Gzip_BEST_SPEED", "-", "losslessCompressor=GZIP_COMPRESSOR")])
     # large incompressible arrays of every element width: the verbatim stream of 4+md+8+1+w*N bytes is what the unwrap buffers of the
     # decoder entries are sized for (a 1 000 000-byte minimum hides anything below ~125000 8-byte / 250000 4-byte elements)
     big = [(1, 130000), (9, 130000), (8, 130000), (0, 260000), (7, 260000), (5, 520000), (2, 1040000)] if not thorough else \
